@@ -592,7 +592,7 @@ func c12Case(c *core.Ctx, idx int) {
 	}
 	recycled, recycledDef := reflect.New(typ), reflect.New(typ)
 	for j := 0; j < nv; j++ {
-		v := (&gen.VG{R: rv, C: protoCfg, Budget: 150}).Value(typ, "")
+		v := (&gen.VG{R: rv, C: protoCfg, Budget: 150, NoSNaN: true}).Value(typ, "")
 		data, err, pn := marshal(p, nil, ptrTo(v))
 		if err != nil || pn != "" {
 			rec.Violation("marshal-error", fmt.Sprintf("%v %s", err, pn), caseExtra(tc, v, nil))
